@@ -2,7 +2,7 @@
 
 PROP = {
     "pkg": "internal/filtering",
-    "files": ["filtering/c15_model_test.go", "filtering/c15_parser_test.go"],
+    "files": ["filtering/c15_model_test.go", "filtering/c15_parser_test.go", "filtering/c15_refresh_test.go"],
     "level": "exploration",
     "claimed": False,
     "technique": "property-based testing (rapid)",
@@ -11,10 +11,12 @@ PROP = {
     "tests": [
         ("TestVFC15Parser", (8000, 40000)),
         ("TestVFC15ParserLong", (300, 1500)),
+        ("TestVFC15Refresh", (200, 1000), {"steps": 8}),
     ],
     "plain": [],
     "shards": (2, 16),
     "workers": (4, 16),
     "rule": "",
     "assumptions": [],
+    "env": {"GOMAXPROCS": "2"},
 }
